@@ -98,6 +98,7 @@ type testEnv struct {
 	c        *suiteCtx
 	panics   int
 	lastPanic string
+	rec      *recorder
 }
 
 func (e *testEnv) close() {
@@ -265,6 +266,9 @@ func newEnv(c *suiteCtx, cfg proxyCfg) (*testEnv, error) {
 		e.close()
 		return nil, fmt.Errorf("validate: %w", err)
 	}
+	// Validate re-configures the logger outputs
+	logger.SetOutput(io.Discard)
+	logger.SetErrOutput(io.Discard)
 	validator := NewValidator(o.EmailDomains, o.AuthenticatedEmailsFile)
 	p, err := NewOAuthProxy(o, validator)
 	if err != nil {
